@@ -202,7 +202,7 @@ def ukf_innovation(vc):
         f.r_matrix = np.array([[stale[0]]], dtype=dt)
         f.mean_pred_y = np.array([stale[1]], dtype=dt)
         f.sigma_y_res = np.array([stale[2:5]], dtype=dt)
-        ob = _NS(julian_date=2459000.5, sensor_eci=None, measurement=Meas(), r_matrix=np.array([[rl * rl]], dtype=dt), measurement_states=np.array([yval], dtype=dt))
+        ob = _NS(julian_date=2459000.5, sensor_eci=None, measurement=Meas(), r_matrix=np.array([[rl * rl]], dtype=dt), measurement_states=np.array([yval], dtype=dt), sensor_id=7, target_id=3)
         f.update([ob])
         return f
     # staged: the wrapped measured angle is the same for y and y + 2*pi*k (same uninterpreted applications as in the body)
@@ -289,12 +289,12 @@ def filter_bounded(vc):
             class Meas:
                 angular_values = list(kinds)
 
-                def calculateMeasurement(self, sensor_eci, state, utc, noisy=False, H=H, off=off, kinds=kinds):
-                    vals = H @ state + off
+                def calculateMeasurement(self, sensor_eci, state, utc, noisy=False, H=H, kinds=kinds):
+                    vals = H @ state + sensor_eci  # (the geometry of each observation is that of its OWN sensor state: one sensor observing from several positions)
                     return {f"c{j}": (wrapw(vals[j] + shift, kinds[j]) if kinds[j] != IsAngle.NOT_ANGLE else vals[j]) for j in range(len(vals))}
             truth = H @ x + off + noise
             y = np.array([(wrapw(truth[j] + shift, kinds[j]) + 2 * np.pi * turns) if kinds[j] != IsAngle.NOT_ANGLE else truth[j] for j in range(len(truth))])
-            obs.append(_NS(julian_date=2459000.5, sensor_eci=None, measurement=Meas(), r_matrix=R, measurement_states=y))
+            obs.append(_NS(julian_date=2459000.5 + i * 1e-4, sensor_eci=off, measurement=Meas(), r_matrix=R, measurement_states=y, sensor_id=7, target_id=3))
         f.update(obs)
         return f
     import itertools as it
@@ -367,7 +367,7 @@ def gpf_residuals(vc):
             def calculateMeasurement(self, sensor_eci, state, utc, noisy=False):
                 m = 0 if state[0] == 1.0 else 1  # which particle
                 return {f"c{j}": self.pred[m][j] for j in range(len(self.pred[m]))}
-        obs.append(_NS(julian_date=2459000.5, sensor_eci=None, measurement=Meas(pred), measurement_states=y))
+        obs.append(_NS(julian_date=2459000.5, sensor_eci=None, measurement=Meas(pred), measurement_states=y, sensor_id=7, target_id=3))
         want_flags += [a != IsAngle.NOT_ANGLE for a in lay]
         ys.append(y)
         preds.append(pred)
